@@ -20,6 +20,7 @@ CFG = """SPECIFICATION Spec
 CONSTANTS PreKinds = {%(kinds)s}
  D = %(D)d
  MultiFile = %(multi)s
+ NF = %(nf)d
 PROPERTY NoClobber
 PROPERTY RefusedIffExists
 PROPERTY FullReplace
@@ -27,6 +28,11 @@ PROPERTY ReadsPure
 ACTION_CONSTRAINT Emit
 CHECK_DEADLOCK FALSE
 """
+
+
+def _at(m, k):
+    """TLC's ToJson renders a function with domain 0..n as an object keyed by strings (or a list when the domain is 1..n)"""
+    return m[str(k)] if isinstance(m, dict) else m[k]
 
 
 def _hash(path):
@@ -54,8 +60,9 @@ def _size(path):
     return os.path.getsize(path)
 
 
-def _fname(d, ext, k):
-    return os.path.join(d, "t." + ext + ("" if k == 0 else ".%d" % k))
+def _fname(d, ext, k, nf=2):
+    """the path itself (k = 0) or its k-th numbered companion, zero-padded to the width of the frame count as mdtraj names them"""
+    return os.path.join(d, "t." + ext + ("" if k == 0 else ".%0*d" % (len(str(nf)), k)))
 
 
 def _traj(first, n):
@@ -162,7 +169,7 @@ def _fresh_size(ext, n, multi_k, how, idx):
         shutil.rmtree(d, ignore_errors=True)
         os.makedirs(d)
         _do(dict(op=how, n=n, fo=True), d, ext, idx)
-        p = _fname(d, ext, multi_k)
+        p = _fname(d, ext, multi_k, n)
         _fresh[key] = _size(p) if os.path.lexists(p) else -1
         shutil.rmtree(d, ignore_errors=True)
     return _fresh[key]
@@ -181,33 +188,38 @@ def _replay(task):
 
 def _replay_in(ext, tr, d):
     hist = tr["hist"]
-    for k in (0, 1, 2):
-        _put(_fname(d, ext, k), ext, tr["init"][str(k)], k)
+    nf = len(tr["init"]) - 1
+    KS = list(range(nf + 1))
+    fname = lambda k: _fname(d, ext, k, nf)
+    for k in KS:
+        _put(fname(k), ext, _at(tr["init"], k), k)
     problems = []
     for i, step in enumerate(hist):
         last = i == len(hist) - 1
-        before = {k: _hash(_fname(d, ext, k)) for k in (0, 1, 2)}
+        before = {k: _hash(fname(k)) for k in KS}
         listing_before = sorted(os.listdir(d))
         got = _do(step, d, ext, i + 1)
         if not last:
             if step["op"] == "open_only" and step["ok"]:
                 # the specification leaves open what an open-and-close leaves behind: this test applies only if
                 # the branch it took (pre-state of the next step) is the one the format realises
-                nxt = tr["pre"]["0"]
-                now = _hash(_fname(d, ext, 0))
+                nxt = _at(tr["pre"], 0)
+                now = _hash(fname(0))
                 real = "absent" if now == "absent" else ("same" if now == before[0] else "new")
-                want = "absent" if nxt[0] == "absent" else ("new" if (nxt[0] == "new" and nxt[2] // 10 == i + 1) else "same")
+                want = "absent" if nxt[0] == "absent" else ("new" if (nxt[0] == "new" and nxt[2] // 100 == i + 1) else "same")
                 if real != want:
                     return "not-applicable"
             continue
-        after = {k: _hash(_fname(d, ext, k)) for k in (0, 1, 2)}
+        after = {k: _hash(fname(k)) for k in KS}
         if step["ok"] and got != "ok":
             problems.append("operation failed though nothing stood in its way: %s" % got)
         if not step["ok"] and got == "ok":
             problems.append("no error although the target exists and force_overwrite=False")
-        for k in (0, 1, 2):
-            pre, post = tr["pre"][str(k)], tr["post"][str(k)]
-            path = _fname(d, ext, k)
+        for k in KS:
+            pre, post = _at(tr["pre"], k), _at(tr["post"], k)
+            path = fname(k)
+            if post[0] == "maybe":
+                continue     # an absent target of a refused multi-file save: created or not, the property does not say
             if step["op"] == "open_only" and step["ok"] and k == 0:
                 continue     # any of the three outcomes the specification allows
             if post == pre:
@@ -215,7 +227,7 @@ def _replay_in(ext, tr, d):
                     problems.append("file %s changed (%s) though the specification leaves it alone"
                                     % (os.path.basename(path), "existing file clobbered" if pre[0] != "absent" else "created"))
             elif post[0] == "new":
-                nfr = post[2] % 10
+                nfr = post[2] % 100
                 if step["op"] == "open_only" or nfr == 0:
                     continue      # nothing was written; only refusal/purity is specified for this operation
                 try:
@@ -232,7 +244,7 @@ def _replay_in(ext, tr, d):
                     if fs >= 0 and _size(path) != fs:
                         problems.append("overwritten file %s keeps a remnant of the old content: size %d, fresh %d" % (os.path.basename(path), _size(path), fs))
         extra = [x for x in sorted(os.listdir(d)) if x not in listing_before and x not in
-                 [os.path.basename(_fname(d, ext, k)) for k in (0, 1, 2)]]
+                 [os.path.basename(fname(k)) for k in KS]]
         if extra and step["op"] not in ("save", "open_w", "open_only"):
             problems.append("read operation created files: %s" % extra)
     if not problems:
@@ -272,10 +284,12 @@ def run(ctx):
     tests = {}
     for multi in (False, True):
         kinds = '"valid", "longer", "junk"' if not multi else '"valid", "junk"'
-        r = ctx.tlc("FileGuard", "FG_%s.cfg" % multi, workers=8, cfg_text=CFG % dict(kinds=kinds, D=D, multi="TRUE" if multi else "FALSE"))
-        tests[multi] = r.tr
+        tests[multi] = []
+        for nf in ((2,) if not multi else (2, 10)):
+            r = ctx.tlc("FileGuard", "FG_%s_%d.cfg" % (multi, nf), workers=8, cfg_text=CFG % dict(kinds=kinds, D=D if nf == 2 else 1, multi="TRUE" if multi else "FALSE", nf=nf))
+            tests[multi] += r.tr
     # dtr "files" are directories: a pre-existing directory of another origin is the dir kind
-    rdir = ctx.tlc("FileGuard", "FG_dir.cfg", workers=8, cfg_text=CFG % dict(kinds='"valid", "dir"', D=D, multi="FALSE"))
+    rdir = ctx.tlc("FileGuard", "FG_dir.cfg", workers=8, cfg_text=CFG % dict(kinds='"valid", "dir"', D=D, multi="FALSE", nf=2))
     openable = dict(zip(SAVE_EXTS, [v if st == "ok" else False for st, v in pool.run_tasks(_probe, SAVE_EXTS, workers=4, batch=1)]))
     tasks = []
     skipped = {}
